@@ -154,13 +154,14 @@ func normDiag(d string) string {
 func evaluate(tabs *schema.Tables, p *schema.Prog, full bool) (o outcome) {
 	o.prog = p
 	var bt *schema.Built
-	if msg, pn := mbt.Guard(func() { bt = schema.BuildProg(p) }); pn {
+	cur := ""
+	if msg, pn := mbt.Guard(func() { bt = schema.BuildProgTracked(p, &cur) }); pn {
 		if strings.Contains(msg, "spec gap") || strings.HasPrefix(msg, "schema:") {
 			o.discard = "harness: " + msg
 			return
 		}
-		o.sig = "C03|constructor|" + subject(p, "") + "|panics-on-well-typed-operands"
-		o.what = fmt.Sprintf("a constructor call of program %s panics: %s", p.ID, mbt.Truncate(msg, 300))
+		o.sig = "C03|constructor|" + cur + "|panics-on-well-typed-operands"
+		o.what = fmt.Sprintf("the constructor call %s of program %s panics although its operands are well-typed: %s\n--- the program, rendered from the Schema templates:\n%s", cur, p.ID, mbt.Truncate(msg, 300), schema.RenderProg(tabs, p))
 		return
 	}
 	if msg, pn := mbt.Guard(func() { o.libText = bt.M.String() }); pn {
